@@ -53,13 +53,33 @@ def mode_ident(name):
     return 'vmode_' + ''.join(c if c.isalnum() else '_' for c in name)
 
 
+def pow2ceil(n):
+    p = 1
+    while p < n:
+        p *= 2
+    return p
+
+
 class Ref(object):
-    """Independent reference for the memory layout (written from the hardware description: CGA/PCjr/Hercules
-    interleaved banks of packed pixels, EGA bit planes, Tandy mode 6 plane-per-parity, text char/attr pairs);
-    uses only the mode parameters read from the live mode object."""
+    """Independent reference for the memory layout, written from the hardware description and NOT from the
+    mapper's stride attributes: text = char/attribute pairs, row-major, pages of the next power of two;
+    CGA/PCjr/Tandy/Hercules/Olivetti graphics = packed pixels (Tandy 640x200x4: bit plane per address parity),
+    scan lines interlaced over as many 8 KiB banks as the picture needs, page = banks x 8 KiB; EGA = bit
+    planes of 8 pixels per byte, linear, pages of the next power of two.  Taken from the live mode: pixel or
+    text dimensions, bits per pixel, mapper class, segment, number of pages."""
 
     def __init__(self, info):
         self.i = info
+        i = info
+        if i['kind'] == 3:
+            self.page_size = pow2ceil(i['width'] * i['height'] * 2)
+        elif i['kind'] == 1:
+            self.bpr = i['width'] // 8
+            self.page_size = pow2ceil(self.bpr * i['height'])
+        else:
+            self.bpr = i['width'] * i['bpp'] // 8
+            self.banks = -(-(self.bpr * i['height']) // 0x2000)
+            self.page_size = self.banks * 0x2000
 
     def cell(self, addr):
         """-> None (not backing screen content) or (page, y, x0, npix, plane-or-None) / text: (page,row,col,is_attr)"""
@@ -67,7 +87,7 @@ class Ref(object):
         rel = addr - i['seg'] * 16
         if rel < 0:
             return None
-        page, a = divmod(rel, i['page_size'])
+        page, a = divmod(rel, self.page_size)
         if page >= i['npages']:
             return None
         if i['kind'] == 3:
@@ -76,22 +96,18 @@ class Ref(object):
                 return None
             return (page, row, r // 2, r % 2)
         if i['kind'] == 1:
-            row, col = divmod(a, i['width'] // 8)
+            row, col = divmod(a, self.bpr)
             if row >= i['height']:
                 return None
             return (page, row, col * 8, 8, None)
-        bank, off = divmod(a, i['bank_size'])
-        if i['kind'] == 2:
-            row, col = divmod(off, i['width'] // 4)
-            y = row * i['interleave'] + bank
-            if y >= i['height']:
-                return None
-            return (page, y, (col // 2) * 8, 8, col % 2)
-        ppb = 8 // i['bpp']
-        row, col = divmod(off, i['width'] // ppb)
-        y = row * i['interleave'] + bank
+        bank, off = divmod(a, 0x2000)
+        row, col = divmod(off, self.bpr)
+        y = row * self.banks + bank
         if y >= i['height']:
             return None
+        if i['kind'] == 2:
+            return (page, y, (col // 2) * 8, 8, col % 2)
+        ppb = 8 // i['bpp']
         return (page, y, col * ppb, ppb, None)
 
 
@@ -605,6 +621,12 @@ class C34(core.Check):
                                     other = 1 - cell[4]
                                     if any(((before[p][y][x] ^ after[p][y][x]) >> other) & 1 for x in diff):
                                         return 'POKE to %#x changed the other colour plane' % addr
+                                if i['kind'] == 1:
+                                    # EGA: only planes enabled in the write mask (and present in the mode)
+                                    keep = 0xff & ~(rb['mask'] & i['master'])
+                                    if any((before[p][y][x] ^ after[p][y][x]) & keep for x in diff):
+                                        return 'POKE to %#x changed colour planes outside the write mask %#x' % (
+                                            addr, rb['mask'])
                 # PEEK returns the byte written on writable planes
                 if cell is not None:
                     writable = True
